@@ -26,6 +26,12 @@ Fault = {"job": "/b/0.10", "phase": "schedule"|"transfer"|"execute",
  all  : fail-stop, the whole volatile deployment work directory is deleted (what the
         test-suite's FAIL_STOP does)
 Every deletion is logged with the files that really existed (the loss record).
+Program options: "pop": true - every ExecuteStep output goes through the engine's
+PopCommandOutputProcessor (the command returns {port name: value}); "sites": {stage name: "b"} - that
+stage runs on a second local deployment `vf-volatile-b` with its own volatile work directory; a file
+staged from one deployment to the other is recorded as a second PRIMARY replica of the source (what
+DefaultDataManager.transfer_data does for read-only copies between deployments).  With two sites kind
+`all` deletes the work directory of the deployment the failing job runs on.
 Optional ordering gates of a fault (C17): "hold": [jobs] - those jobs stay inside their command
 (RUNNING) until the faulty job gets past its failures, or - when it fails for good - until 50 loop
 turns after its `_run_job` returned FAILED (the engine cancels the siblings it knows of at once; a sibling
@@ -49,6 +55,7 @@ from streamflow.core.data import DataType
 from streamflow.core.deployment import DeploymentConfig, Target
 from streamflow.core.exception import WorkflowExecutionException
 from streamflow.core.persistence import Database, DatabaseLoadingContext
+from streamflow.core.processor import PopCommandOutputProcessor
 from streamflow.core.utils import get_entity_ids, get_job_tag, get_tag
 from streamflow.core.workflow import (
     Command,
@@ -119,7 +126,9 @@ class H:
     passed: dict = {}  # (job, phase) of a fault -> Event set when that job got past its failures
     done: dict = {}  # job -> Event set at its first successful execution (for "after" gates)
     clock = 0
-    volatile = None  # the volatile work directory
+    volatile = None  # the volatile work directory (of the first deployment)
+    roots: dict = {}  # deployment name -> volatile work directory
+    step_site: dict = {}  # step name -> deployment name (steps not listed run on DEPLOYMENT)
     durations = None  # random.Random for job durations (yields)
     max_yield = 3
     avail: list = []  # (t, path, result) observed FileToken availability probes
@@ -131,7 +140,9 @@ class H:
     syncs: list = []  # decisions of _synchronize_workflows: {t, failed, wfkey, recovering: {job: bool}}
 
     @classmethod
-    def reset(cls, faults=(), volatile=None, durations=None, max_yield=3):
+    def reset(cls, faults=(), volatile=None, durations=None, max_yield=3, roots=None, step_site=None):
+        cls.roots = dict(roots or {DEPLOYMENT: volatile})
+        cls.step_site = dict(step_site or {})
         cls.faults = {}
         for f in faults:
             cls.faults[(f["job"], f["phase"])] = dict(f)
@@ -177,6 +188,12 @@ class H:
         e = dict(t=cls.tick(), ev=_ev, **kw)
         cls.events.append(e)
         return e
+
+    @classmethod
+    def root_of(cls, job) -> str:
+        """Volatile work directory of the deployment `job` runs on."""
+        step = job.name.rsplit("/", 1)[0]
+        return cls.roots.get(cls.step_site.get(step, DEPLOYMENT), cls.volatile)
 
     @classmethod
     def wfkey(cls, wf) -> int:
@@ -228,7 +245,7 @@ async def _inject(job: Job, phase: str, context) -> bool:
         dirs = [d for d in (job.input_directory, job.output_directory, job.tmp_directory) if d]
         _delete(dirs, job.name, phase, kind, attempt)
     elif kind == "all":
-        _delete([H.volatile], job.name, phase, kind, attempt)
+        _delete([H.root_of(job)], job.name, phase, kind, attempt)
     H.ev("fault", job=job.name, phase=phase, kind=kind, attempt=attempt)
     return True
 
@@ -236,10 +253,9 @@ async def _inject(job: Job, phase: str, context) -> bool:
 def _delete(dirs, job, phase, kind, attempt):
     for d in dirs:
         # never delete anything but (a sub directory of) the volatile work directory
-        if H.volatile is None or os.path.basename(H.volatile) != VOLATILE_DIRNAME:
-            raise RuntimeError(f"harness: refusing to delete {d}")
-        if not (d == H.volatile or d.startswith(H.volatile + os.sep)):
-            raise RuntimeError(f"harness: refusing to delete {d} (outside {H.volatile})")
+        roots = [r for r in H.roots.values() if os.path.basename(r) == VOLATILE_DIRNAME]
+        if not any(d == r or d.startswith(r + os.sep) for r in roots):
+            raise RuntimeError(f"harness: refusing to delete {d} (outside {roots})")
         files = _existing_files(d) if os.path.isdir(d) else []
         producers = sorted({H.outputs[f] for f in files if f in H.outputs})
         shutil.rmtree(d, ignore_errors=True)
@@ -330,17 +346,18 @@ class VfFailCommand(Command):
     single file), "concat" (one file `name@tag(x0|x1|..)` from all inputs rendered in port order,
     joined with ';'), "inc" (integer + 1)."""
 
-    def __init__(self, step, op: str = "pipe", label: str = ""):
+    def __init__(self, step, op: str = "pipe", label: str = "", pop: bool = False):
         super().__init__(step)
         self.op = op
         self.label = label
+        self.pop = pop
 
     async def _save_additional_params(self, database: Database) -> MutableMapping[str, Any]:
-        return cast(dict, await super()._save_additional_params(database)) | {"op": self.op, "label": self.label}
+        return cast(dict, await super()._save_additional_params(database)) | {"op": self.op, "label": self.label, "pop": self.pop}
 
     @classmethod
     async def _load(cls, row, loading_context: DatabaseLoadingContext, step):
-        return cls(step=step, op=row["op"], label=row["label"])
+        return cls(step=step, op=row["op"], label=row["label"], pop=bool(row.get("pop")))
 
     def _write(self, job: Job, name: str, content: str) -> dict:
         os.makedirs(job.output_directory, exist_ok=True)
@@ -398,7 +415,8 @@ class VfFailCommand(Command):
                 if job.name in H.done:
                     H.done[job.name].set()
                 rec["out"] = value if self.op == "inc" else [v["path"] for v in (value if isinstance(value, list) else [value])]
-                out = CommandOutput(value, Status.COMPLETED)
+                # with pop processors the command returns an object keyed by output port name
+                out = CommandOutput({k: value for k in self.step.output_ports} if self.pop else value, Status.COMPLETED)
             except OSError as e:  # an input vanished (somebody's fail-stop): a genuine job failure
                 rec["outcome"] = "genuine"
                 out = CommandOutput(f"{type(e).__name__}: {e}", Status.FAILED)
@@ -434,6 +452,14 @@ class VfFailTransferStep(TransferStep):
                 )
             except WorkflowExecutionException as err:
                 raise WorkflowExecutionException(f"Job {job.name} failed transfer: {err}")
+            if source_location.deployment != dst_connector.deployment_name:
+                # a copy on another deployment is a replica of the same data: transfer_data records this relation
+                # for read-only copies between deployments (local connectors would symlink those, hence the
+                # writable copy above plus the explicit relation)
+                dm = context.data_manager
+                dst = [loc for loc in dm.get_data_locations(dst_path, data_type=DataType.PRIMARY) if loc.path == dst_path]
+                if dst:
+                    dm.register_relation(source_location, dst[0])
         else:
             raise WorkflowExecutionException(f"Job {job.name} input does not exist: File {path}")
         return dst_path
@@ -730,22 +756,29 @@ def ancestors(jobs: list[dict]) -> dict[str, set]:
 # building the real workflow
 # --------------------------------------------------------------------------------------------
 class Builder:
-    def __init__(self, context, workflow: Workflow, dep: DeploymentConfig, inputs_dir: str):
+    def __init__(self, context, workflow: Workflow, dep: DeploymentConfig, inputs_dir: str, deps=None, sites=None,
+                 pop: bool = False):
         self.context = context
         self.wf = workflow
         self.dep = dep
+        self.deps = dict(deps or {dep.name: dep})
+        self.sites = dict(sites or {})  # step name -> deployment name
+        self.pop = pop
         self.inputs_dir = inputs_dir
-        self.deploy = workflow.create_step(
-            cls=DeployStep, name=posixpath.join("__deploy__", dep.name), deployment_config=dep
-        )
+        self.deploys = {
+            n: workflow.create_step(cls=DeployStep, name=posixpath.join("__deploy__", n), deployment_config=d)
+            for n, d in self.deps.items()
+        }
+        self.deploy = self.deploys[dep.name]
 
     def _schedule(self, cls, step_name: str) -> ScheduleStep:
+        dep = self.deps[self.sites.get(step_name, self.dep.name)]
         return self.wf.create_step(
             cls=cls,
             name=posixpath.join(step_name, "__schedule__"),
             job_prefix=step_name,
-            connector_ports={self.dep.name: self.deploy.get_output_port()},
-            binding_config=BindingConfig(targets=[Target(deployment=self.dep)]),
+            connector_ports={dep.name: self.deploys[dep.name].get_output_port()},
+            binding_config=BindingConfig(targets=[Target(deployment=dep)]),
             hardware_requirement=None,
         )
 
@@ -764,7 +797,7 @@ class Builder:
         step_name = f"/{name}"
         sched = self._schedule(VfFailScheduleStep, step_name)
         ex = self.wf.create_step(ExecuteStep, name=step_name, job_port=sched.get_output_port())
-        ex.command = VfFailCommand(ex, op=op, label=name)
+        ex.command = VfFailCommand(ex, op=op, label=name, pop=self.pop)
         for key, port in inputs.items():
             sched.add_input_port(key, port)
             tr = self.wf.create_step(
@@ -775,7 +808,10 @@ class Builder:
             tr.add_input_port(key, port)
             tr.add_output_port(key, self.wf.create_port())
             ex.add_input_port(key, tr.get_output_port(key))
-        ex.add_output_port(out, self.wf.create_port(), VfOutputProcessor(out, self.wf))
+        proc = VfOutputProcessor(out, self.wf)
+        if self.pop:
+            proc = PopCommandOutputProcessor(out, self.wf, processor=proc)
+        ex.add_output_port(out, self.wf.create_port(), proc)
         return ex.get_output_port(out)
 
     def input_file(self, name: str, content: str) -> dict:
@@ -873,9 +909,18 @@ async def build(context, prog: dict, case_dir: str):
     os.makedirs(vol, exist_ok=True)
     dep = DeploymentConfig(name=DEPLOYMENT, type="local", config={}, external=True, lazy=False, workdir=vol)
     await context.deployment_manager.deploy(dep)
+    deps, roots = {dep.name: dep}, {dep.name: vol}
+    sites = {f"/{k}": DEPLOYMENT + "-" + v for k, v in (prog.get("sites") or {}).items()}
+    for name in sorted(set(sites.values())):
+        root = os.path.join(case_dir, "vol-" + name.rsplit("-", 1)[1], VOLATILE_DIRNAME)
+        os.makedirs(root, exist_ok=True)
+        deps[name] = DeploymentConfig(name=name, type="local", config={}, external=True, lazy=False, workdir=root)
+        roots[name] = root
+        await context.deployment_manager.deploy(deps[name])
     wf = CWLWorkflow(context=context, name=sf_utils.random_name(), config={}, cwl_version="v1.2")
     await wf.save(context.database)
-    b = Builder(context, wf, dep, os.path.join(case_dir, "inputs"))
+    b = Builder(context, wf, dep, os.path.join(case_dir, "inputs"), deps=deps, sites=sites, pop=bool(prog.get("pop")))
+    build.roots, build.step_site = roots, sites
     inp = prog["input"]
     if inp["kind"] == "list":
         value = [b.input_file(f"in{i}", f"in{i}") for i in range(inp["n"])]
@@ -988,7 +1033,7 @@ async def run_program(prog: dict, faults: list, case_dir: str, seed: int, failur
         Sched.reset(seed, K=K, enabled=perturb)
         wf, out_port, vol = await build(context, prog, case_dir)
         H.reset(faults, volatile=vol, durations=random.Random(seed * 7919 + 13) if perturb else None,
-                max_yield=max_yield)
+                max_yield=max_yield, roots=build.roots, step_site=build.step_site)
         executor = StreamFlowExecutor(wf)
         # run_quiescent takes its task census at the instant it detects quiescence (before it
         # cancels anything): take our own census of the hung recovery workflows at that instant
